@@ -73,4 +73,5 @@ CONFIG = {
         "under the reference distribution) only",
     ],
     "timeout": {"quick": 900, "thorough": 5400},
+    "search_timeout": 1800,
 }
